@@ -7,7 +7,7 @@ import json, os
 import vlib
 from vlib import log
 
-HOME = dict(c1="S", c2="S", c3="r1", c4="r1", c5="r2")
+HOME = dict(c1="S", c2="S", c3="r1", c4="r1", c5="r2", l1="S", l2="r1")
 SPECIAL = ["Wedge", "DupBroadcast", "PoolStop", "PoolStopConnected", "BadFrame"]
 
 
